@@ -219,3 +219,57 @@ def classify_heuristic(case, toks, model, spec):
     if sset & SPECIAL_MISSING:
         return "special-category:" + ",".join(sorted(sset & SPECIAL_MISSING))
     return "other:%s|%s" % (cont if cont is not None else "-", ",".join(allnames))
+
+
+# ------------------------------------------------------------------------------------------------
+# strict classification (used by the C01 check): a list of COMPONENT labels, or None = unexplained
+
+STRICT_LABEL = dict(SWITCHES)
+STRICT_LABEL.update({"charsrun": "chars-run-whitespace", "nameonly": "foreign-name-confusion",
+                     "wsnorec": "whitespace-without-AFE-reconstruct"})
+TEMPLATE_TAG = re.compile(r"</?template\b[^>]*>", re.I)
+ISINDEX_TAG = re.compile(r"</?isindex\b[^>]*>", re.I)
+
+
+def component_labels(flag, case, toks):
+    st, _en = names(toks)
+    if flag == "special":
+        hit = sorted(set(st) & {"main", "summary", "figcaption", "hgroup"})
+        return ["special-category:" + n for n in hit] or ["special-category:foreign"]
+    if flag == "scriptctx":
+        return ["fragment-initial-tokenizer-state:" + str(case[1]).lower()]
+    return [STRICT_LABEL[flag]]
+
+
+def strict(case, toks, model, spec, explained, same_after, single_only=False):
+    """explained(flags) -> does the spec with these NON-STANDARD switches equal the model?
+    same_after(case') -> is there NO difference on the modified case?  Returns a list of labels or None."""
+    if model.startswith("err ") or spec.startswith("err "):
+        return None
+    for flag, _ in SWITCHES:
+        if explained([flag]):
+            return component_labels(flag, case, toks)
+    if single_only:
+        return None
+    allflags = [f for f, _ in SWITCHES]
+    if explained(allflags):
+        need = list(allflags)
+        for f in allflags:
+            trial = [x for x in need if x != f]
+            if explained(trial):
+                need = trial
+        out = []
+        for f in need:
+            out.extend(component_labels(f, case, toks))
+        return out
+    text, container, scripting, ns = case
+    cont = container.lower() if container is not None else None
+    # template: the witness has a template tag / context AND without them the difference disappears
+    if TEMPLATE_TAG.search(text) or cont == "template":
+        c2 = (TEMPLATE_TAG.sub("", text), "div" if cont == "template" else container, scripting, ns)
+        if same_after(c2):
+            return ["template-element"]
+    if ISINDEX_TAG.search(text):
+        if same_after((ISINDEX_TAG.sub("", text), container, scripting, ns)):
+            return ["isindex-legacy"]
+    return None
